@@ -9,17 +9,36 @@ let rec int_of_pos = function
   | XO p -> let r = int_of_pos p in if r > max_int / 2 then raise Big else 2 * r
   | XI p -> let r = int_of_pos p in if r > (max_int - 1) / 2 then raise Big else 2 * r + 1
 let int_of_z = function Z0 -> 0 | Zpos p -> int_of_pos p | Zneg p -> - (int_of_pos p)
-let zi z = try string_of_int (int_of_z z) with Big -> "BIG"
+(* decimal printing of any Z: chunks of 9 digits through the extracted Z.div_eucl *)
+let rec string_of_big z =
+  let chunk = z_of_int 1000000000 in
+  match z with
+  | Zneg p -> "-" ^ string_of_big (Zpos p)
+  | _ -> (try string_of_int (int_of_z z) with Big ->
+            let (qq, r) = Z.div_eucl z chunk in
+            string_of_big qq ^ Printf.sprintf "%09d" (int_of_z r))
+let zi z = string_of_big z
 let zs l = String.concat " " (List.map zi l)
 
 exception Short
 let toks = ref []
 let next () = match !toks with x :: r -> toks := r; x | [] -> raise Short
 let nexti () = int_of_string (next ())
-let z () = z_of_int (nexti ())
-let q () = let n = z () in let d = nexti () in { qnum = n; qden = pos_of_int d }
+(* decimal -> Z without going through OCaml's 63-bit int (denominators of doubles reach 2^62 and more) *)
+let z_of_string s =
+  let neg = String.length s > 0 && s.[0] = '-' in
+  let ten = z_of_int 10 in
+  let acc = ref Z0 in
+  String.iteri (fun i c ->
+    if i = 0 && (c = '-' || c = '+') then ()
+    else if c >= '0' && c <= '9' then acc := Z.add (Z.mul !acc ten) (z_of_int (Char.code c - 48))
+    else failwith "digit") s;
+  if neg then Z.opp !acc else !acc
+let z () = z_of_string (next ())
+let q () = let n = z () in let d = z () in
+  match d with Zpos p -> { qnum = n; qden = p } | _ -> failwith "denominator" 
 let rec rep n f = if n <= 0 then [] else let x = f () in x :: rep (n-1) f
-let qs x = let r = qred x in (try Printf.sprintf "%d/%d" (int_of_z r.qnum) (int_of_pos r.qden) with Big -> "BIG")
+let qs x = let r = qred x in zi r.qnum ^ "/" ^ zi (Zpos r.qden)
 
 let orient_of_int = function 0->ON|1->OS|2->OW|3->OE|4->OFN|5->OFS|6->OFW|7->OFE|8->OINVALID|_->OUNKNOWN
 let rect () = let a = z () in let b = z () in let c = z () in let d = z () in {minX=a;maxX=b;minY=c;maxY=d}
